@@ -55,6 +55,13 @@ type adapterRunner struct {
 	dir  string
 	vals map[string][]byte // every key put and not removed since ↦ its (immutable) value
 	ever map[string]bool   // every key ever used
+	held []heldVal         // the caller keeps what the last few Gets returned: each must stay its key's value
+}
+
+type heldVal struct {
+	key  string
+	obj  interface{}
+	want []byte
 }
 
 func (adapterComp) NewRunner(begin string) Runner {
@@ -171,6 +178,17 @@ func (r *adapterRunner) doPut(what string, k, v []byte, sz int, call func() bool
 }
 
 func (r *adapterRunner) Exec(line string) string {
+	out := r.exec1(line)
+	// a value handed out by Get belongs to the caller: later operations (a Get of another spilled key, say) must not change it
+	for _, h := range r.held {
+		if !bytes.Equal(asBytes(h.obj), h.want) {
+			r.add("C17", "returned-value-changed-later", fmt.Sprintf("after %q: the value Get returned for key %s earlier (%s) now reads %s", line, hx([]byte(h.key)), hx(h.want), hx(asBytes(h.obj))))
+		}
+	}
+	return out
+}
+
+func (r *adapterRunner) exec1(line string) string {
 	t := strings.Fields(line)
 	var k []byte
 	if len(t) > 1 {
@@ -230,6 +248,10 @@ func (r *adapterRunner) Exec(line string) string {
 		}
 		if !ok {
 			return "none | " + r.dump()
+		}
+		r.held = append(r.held, heldVal{string(k), v, append([]byte{}, asBytes(v)...)})
+		if len(r.held) > 4 {
+			r.held = r.held[1:]
 		}
 		return "some:" + hx(asBytes(v)) + " | " + r.dump()
 	case "has":
@@ -592,7 +614,12 @@ func (unitComp) Gen(rng *rand.Rand, tier string) [][]string {
 			fail := b01(rng.Intn(6) == 0 && db == "mem")
 			switch x := rng.Intn(100); {
 			case x < 40:
-				h = append(h, fmt.Sprintf("put %s %02x%02x %s", hx(k), s%256, rng.Intn(4), fail))
+				if rng.Intn(8) == 0 {
+					// an empty value is a value: acknowledged, served from either layer, found by Has and the bulk read
+					h = append(h, fmt.Sprintf("put %s - %s", hx(k), fail))
+				} else {
+					h = append(h, fmt.Sprintf("put %s %02x%02x %s", hx(k), s%256, rng.Intn(4), fail))
+				}
 			case x < 70:
 				h = append(h, fmt.Sprintf("get %s %s", hx(k), fail))
 			case x < 80:
@@ -1265,22 +1292,25 @@ func (timeComp) Gen(rng *rand.Rand, tier string) [][]string {
 	var hs [][]string
 	// directed: a sweep that leaves a long-lived survivor, then short-lived (re-)additions of other / the same key, then sweeps
 	// after the short span has elapsed (any bookkeeping a sweep keeps about "nothing can expire before …" must see later adds)
-	nDirected := 3
+	nDirected := 4
 	if tier == "thorough" {
-		nDirected = 30
+		nDirected = 32
 	}
 	for d := 0; d < nDirected; d++ {
-		kind := pick(rng, "tc", "tc", "peer")
+		kind := []string{"tc", "tc", "peer", "tc"}[d%4]
 		h := []string{fmt.Sprintf("begin timecache kind=%s span=%d", kind, 60*ms)}
 		long := pick(rng, 3000, 5000) * ms
 		short := pick(rng, 40, 60, 80) * ms
 		h = append(h, fmt.Sprintf("upsert 0a %d -", long), "sweep", "has 0a")
-		if kind == "peer" {
+		switch d % 4 {
+		case 2:
 			h = append(h, fmt.Sprintf("upsert 0b %d -", short))
-		} else if d%2 == 0 {
+		case 0:
 			h = append(h, fmt.Sprintf("addspan 0b %d -", short))
-		} else {
+		case 1:
 			h = append(h, "add 0b - -", fmt.Sprintf("addspan 0a %d -", short)) // default span (60ms); the long-lived key is re-added with a short span
+		case 3:
+			h = append(h, fmt.Sprintf("addspan 0b %d -", short), "add 0a - -") // the long-lived key is re-added with the (short) default span
 		}
 		h = append(h, "has 0b", "sleep "+fmt.Sprint(250*ms), "sweep", "has 0b", "has 0a", "sleep "+fmt.Sprint(100*ms), "sweep", "has 0b", "has 0a")
 		hs = append(hs, h)
